@@ -1,4 +1,5 @@
 import CacheProofs.Lemmas.Backend
+import CacheModel.Construct
 
 /-
   C18 — metrics account for every cache event exactly once (backend half; the Failover counters are in C18F).
@@ -128,6 +129,14 @@ theorem C18_cleanup_metrics (kind : Kind) (cfg : Cfg) (s : Store) (env : Cleanup
       | some k => [.evict k]
       | none => [] := by
   unfold Store.cleanup; simp only; split <;> simp_all
+
+/-- **C18_default_backend_reports_under_failover_name** — the backend a Failover / FailoverOf creates when none is given counts
+    its events with the tracker and under the name given to the failover: the totals of `C18_backend_totals` are found under
+    that label, next to the failover's own counters. -/
+theorem C18_default_backend_reports_under_failover_name (v : Variant) (failoverName altered : String) :
+    defaultBackendName v failoverName altered = failoverName := by
+  cases v <;> simp [defaultBackendName, backendCfgPassthrough, backendCfgIdentity, Gen.backendCfgPassthrough,
+    Gen.backendCfgPassthroughOf, Gen.backendCfgIdentity, Gen.backendCfgIdentityOf]
 
 /-! ### Non-vacuity -/
 example :
